@@ -108,63 +108,11 @@ func probeCloseRace() string {
 	return found
 }
 
-// probePingRace: six healthy graphql-transport-ws connections, pings every 300 ms, every ping answered
-// by the upstream within microseconds. Nothing may happen. The race needs the pinging goroutine to be
-// delayed between "ping written" and "timestamp stored" for longer than a loopback round trip, so
-// several worlds run concurrently to load the scheduler.
-func probePingRaceCase() Case {
-	c := Case{Ping: &Ping{IntervalMs: 300, TimeoutMs: 100}}
-	for k := 0; k < 6; k++ {
-		c.Tuples = append(c.Tuples, Tuple{Endpoint: k % 2, Header: k % 3, Init: (k / 2) % 3})
-		c.Subs = append(c.Subs, Sub{Tuple: k, Nexts: 1, Term: "none"})
-		c.Steps = append(c.Steps, Step{Op: "sub", Sub: k})
-	}
-	c.Steps = append(c.Steps, Step{Op: "ticks", Key: 3})
-	for k := 0; k < 6; k++ {
-		c.Steps = append(c.Steps, Step{Op: "send", Sub: k})
-	}
-	return c
-}
-
-func probePingRace() string {
-	c := probePingRaceCase()
-	var mu sync.Mutex
-	found := ""
-	var wg sync.WaitGroup
-	for g := 0; g < 16; g++ {
-		wg.Add(1)
-		go func() {
-			defer wg.Done()
-			for r := 0; r < 4; r++ {
-				mu.Lock()
-				stop := found != ""
-				mu.Unlock()
-				if stop {
-					return
-				}
-				o := run(c)
-				for _, v := range judge(o) {
-					if v.finding == fPingRace {
-						mu.Lock()
-						if found == "" {
-							found = v.msg
-						}
-						mu.Unlock()
-					}
-				}
-			}
-		}()
-	}
-	wg.Wait()
-	return found
-}
-
 func probes() pbt.Probes {
 	return pbt.Probes{
 		fDialCtx:     {Input: probeDialCtxCase, Fn: probeDialCtx},
 		fCancelWrite: {Input: probeCancelWriteCase(40), Fn: probeCancelWrite},
 		fCloseRace:   {Input: probeCloseRaceCase(), Fn: probeCloseRace},
-		fPingRace:    {Input: probePingRaceCase(), Fn: probePingRace},
 	}
 }
 
